@@ -126,7 +126,7 @@ func entryRef(vo *VerifyOptions, pk, msg, sig []byte) refEntry {
 // Histories of n additions (each through AddWithOptions, with or without forced non-expansion) then Verify:
 // per-entry results, the overall flag and the batch-only shortcut.
 //
-//verif:ob prop=C09 name=BatchVerifier_Verify mode=bv tags=purego use=gapi split=n:1;force:0..1;ns:64+63 tsplit=n:1..2;force:0..1;ns:64+63+0
+//verif:ob prop=C09,C18 name=BatchVerifier_Verify mode=bv tags=purego use=gapi split=n:1;force:0..1;ns:64+63 tsplit=n:1..2;force:0..1;ns:64+63+0 sharedro=1
 //verif:ob prop=C09 name=BatchVerifier_Verify_2_unexpanded mode=bv tags=purego use=gapi split=n:2;force:1;ns:64+63 tier=quickonly
 func vh_C09_batch() {
 	n, force, ns0 := verif.Case("n"), verif.Case("force"), verif.Case("ns")
@@ -228,4 +228,24 @@ func vh_C09_threshold() {
 	expectExpanded := !before && m < 94 && admitted
 	verif.Assert((e.expandedA != nil) == expectExpanded, "admitted keys are expanded exactly below the 94-entry limit (and when not forced off)")
 	verif.Assert(v.anyNotExpanded == (before || m >= 94 || !admitted), "anyNotExpanded tracks unexpanded entries")
+}
+
+// helpers for the cache package harness
+
+// VerifExpandedFor: the expansion of a decodable key as NewExpandedPublicKey builds it.
+func VerifExpandedFor(pk []byte) *ExpandedPublicKey {
+	e, _ := NewExpandedPublicKey(pk)
+	return e
+}
+
+// VerifPredicateDefault: the C01 predicate under the default options (pure Ed25519).
+func VerifPredicateDefault(pk, msg, sig []byte) bool {
+	return verifyPredicate(VerifyOptionsDefault, 0, nil, pk, msg, sig)
+}
+
+// VerifExpandedRaw: an expanded key object whose CompressedY() is pk (all the LRU cache reads of it).
+func VerifExpandedRaw(pk []byte) *ExpandedPublicKey {
+	e := &ExpandedPublicKey{}
+	copy(e.compressed[:], pk)
+	return e
 }
